@@ -264,6 +264,78 @@ def stage_once_drain(ctx):
                               {"kind": "once-drain", "script": script, "log": log, "state": state})
 
 
+def stage_worker_stop(ctx):
+    """exactly-once at the consumer's end: a real pool Worker that is told to stop (worker removal) while it waits in `get`,
+    for every position of the stop among 0-3 queued tasks and for plain and yielding tasks.  Whatever the worker was handed
+    it runs and reports done: when it has exited nothing is "in progress", every handed-out task ran, the others are still
+    queued for the remaining workers."""
+    import importlib
+    import itertools
+    import alpenhorn.scheduler.queue as qmod
+    import alpenhorn.scheduler.task as tmod
+    import alpenhorn.scheduler.pool as pmod
+    for ntask, stop_at, yielding in itertools.product([0, 1, 2, 3], [0, 1, 2, 3], [False, True]):
+        if stop_at > ntask:
+            continue
+        importlib.reload(qmod)
+        vclock = [0.0]
+
+        def _mono():
+            vclock[0] += 1e-4
+            return vclock[0]
+        qmod.monotonic = _mono
+        qmod.sleep = lambda d: None
+        handed, ran = [], []
+
+        class Q(qmod.FairMultiFIFOQueue):
+            __slots__ = ["worker", "ngets"]
+
+            def get(self, timeout=None):
+                k = self.ngets
+                self.ngets += 1
+                if k == stop_at:
+                    self.worker._worker_stop.set()        # the pool is shrunk while this worker waits for a task
+                if k > 12:
+                    self.worker._worker_stop.set()
+                    return None
+                if self.qsize == 0 and self.deferred_size:
+                    vclock[0] = min(d[0] for d in self._deferrals) + 0.001
+                r = super().get(timeout=0.0005)
+                if r is not None:
+                    handed.append(str(r[0]))
+                return r
+        q = Q()
+        q.ngets = 0
+
+        def plain(task, _i=None):
+            ran.append(str(task))
+
+        def gen(task):
+            ran.append(str(task))
+            yield 0
+        for i in range(ntask):
+            tmod.Task(func=gen if yielding else plain, queue=q, key=f"k{i % 2}", name=f"T{i}")
+        pmod.global_abort.clear()
+        w = pmod.Worker(queue=q, index=0)
+        q.worker = w
+        w.run()
+        aborted = pmod.global_abort.is_set()
+        pmod.global_abort.clear()
+        state = dict(handed=list(handed), ran=list(ran), inprogress=q.inprogress_size, queued=q.qsize, deferred=q.deferred_size)
+        ctx.case(("worker-stop", ntask, stop_at, yielding), nontrivial=ntask > 0, sample=state if (ntask, stop_at, yielding) == (2, 1, False) else None)
+        ctx.count(f"worker-stop:handed={len(handed)}")
+        if aborted:
+            ctx.violation("worker-stop:abort", f"a worker told to stop raised the global abort ({state})", {"kind": "worker-stop", "state": state})
+        if q.inprogress_size != 0 or sorted(set(handed)) != sorted(set(ran)):
+            ctx.violation("worker-stop:lost", f"{ntask} task(s) queued, worker told to stop during its get #{stop_at + 1}: it was handed "
+                          f"{handed} but ran {ran}; after it exited the queue still counts {q.inprogress_size} task(s) in progress "
+                          f"(queued {q.qsize}, deferred {q.deferred_size}): a task was taken and never run or reported done",
+                          {"kind": "worker-stop", "ntask": ntask, "stop_at": stop_at, "yielding": yielding, "state": state})
+        elif len(set(handed)) + q.qsize + q.deferred_size < ntask:
+            ctx.violation("worker-stop:vanished", f"{ntask} task(s) queued but only {len(set(handed))} handed out and {q.qsize}+{q.deferred_size} left",
+                          {"kind": "worker-stop", "state": state})
+
+
 class _Pool:
     """a worker pool of two as far as update_loop is concerned (the harness plays the workers)"""
 
@@ -295,6 +367,7 @@ def run(ctx):
                           {"kind": "qschedule", "mid_cs": True, "programs": r["progs"], "keys": r["keys"], "schedule": r["taken"], "problem": p})
     stage_serial_consumer(ctx, 150 if ctx.quick() else 4000)
     stage_once_drain(ctx)
+    stage_worker_stop(ctx)
     ctx.coverage["rule"] = ("2-4 threads (producers with immediate/deferred puts, consumers with timed gets and task_done, joiners, size "
                             "queries, task_done on foreign keys) over 1-3 FIFO keys on the real queue with threading/monotonic/sleep "
                             "replaced by the cooperative shim; corpus under 40 seeded schedules each, then random programs and schedules; "
